@@ -363,6 +363,12 @@ pub trait Subject: BitVector + Clone + Sized + 'static {
     fn bv_cmp(l: &Bv, y: &Self) -> CmpObs;
     fn bvd_bin(l: &Bvd, op: Op, form: Form, y: &Self) -> Bvd;
     fn bv_bin(l: &Bv, op: Op, form: Form, y: &Self) -> Bv;
+    /// convert to type `ty` and back (None when the forward conversion reports an error or, for
+    /// `by_val`, bva has no by-value form for that pair)
+    fn roundtrip_via(&self, ty: usize, by_val: bool) -> Option<Result<Self, String>>;
+    /// Self::try_from(&ones(len) of type `ty`): Some(Ok((len, capacity))) / Some(Err) ; None when
+    /// type `ty` cannot hold `len` bits itself
+    fn try_from_ones_of(ty: usize, len: usize) -> Option<Result<(usize, usize), String>>;
 }
 
 macro_rules! uint_arms {
@@ -442,6 +448,30 @@ macro_rules! common_subject_items {
         }
         fn bv_bin(l: &Bv, op: Op, form: Form, y: &Self) -> Bv {
             <Bv as Pair<$T>>::bin(l, op, form, y)
+        }
+        fn try_from_ones_of(ty: usize, len: usize) -> Option<Result<(usize, usize), String>> {
+            $crate::with_type!(ty, B, {
+                if B::FIXED_CAP.map_or(false, |c| len > c) {
+                    return None;
+                }
+                let b = B::ones(len);
+                Some(<B as Pair<$T>>::conv_ref(&b).map(|v| (v.len(), v.capacity())))
+            })
+        }
+        fn roundtrip_via(&self, ty: usize, by_val: bool) -> Option<Result<Self, String>> {
+            $crate::with_type!(ty, B, {
+                if by_val {
+                    match <$T as Pair<B>>::conv_val(self.clone()) {
+                        Some(Ok(b)) => <B as Pair<$T>>::conv_val(b),
+                        _ => None,
+                    }
+                } else {
+                    match <$T as Pair<B>>::conv_ref(self) {
+                        Ok(b) => Some(<B as Pair<$T>>::conv_ref(&b)),
+                        Err(_) => None,
+                    }
+                }
+            })
         }
     };
 }
